@@ -99,3 +99,12 @@ def neighbours(c, rng):
             ps[i] = ps[i][1:] if ps[i].startswith('!') else '!' + ps[i]
         out.append(mk(ps, rng, c['names']))
     return out
+
+TECHNIQUE = ('Coq proof (Filter.v, FilterFacts.v, P_C08.v) + correspondence check of build_filtering_func against the '
+             'Gallina model evaluated by vm_compute')
+LEVEL_TEXT = ('Theorems over ALL pattern lists, names and regex oracles: accept <-> statement (under "." matches the name), '
+              'set-extensionality (order/duplicates), both monotonicity laws, plus the two documented corner refutations; '
+              'the model is tied to the live build_filtering_func on every run (exhaustive small lists + random), and the '
+              "property predicate c08_ok is evaluated in Coq on the implementation's own answers.")
+LEVEL_NOTE = ('Trusted: Coq kernel + vm_compute; Python re as oracle (answers shipped per case); harness generators and '
+              'literal printer. End-to-end use of the predicate by -t/-m/--layer is exercised by the world checks (C03).')
